@@ -59,3 +59,8 @@ pub fn c16_freelist_n1() {
 pub fn c16_freelist_n3() {
     freelist_roundtrip(3)
 }
+
+// A harness over a *full* page (MAX_PNS_PER_PAGE = 1022 symbolic entries, symbolic index check) was
+// tried: CBMC does not finish symbolic execution + reduction within 25 min. Pages with more than 3
+// entries are outside the claim (this is why seeded change C16-b, which only corrupts entries
+// 1020/1021 of a full page, is not detected).
